@@ -11,6 +11,7 @@ import numpy as np
 from .. import probes, gq, boot
 from ..gen import programs
 from ..mon.compile import CompileMonitor, judge
+from ..mon import dag as dagmon
 from ..ref import graphs, dense, pauli
 
 ID = "C19"
@@ -32,7 +33,7 @@ def shards(tier, seed):
 
 def floors(tier):
     return {"solves:in_process": 120, "solves:other_process": 120, "config:hybrid": 15, "config:evolutionary": 15, "config:n_emitter>1": 10,
-            "config:dm": 10, "hof:entries_checked": 150, "hof:updates_observed": 200, "generations:checked": 200, "aliasing:checks": 200, "config:seed_0": 3}
+            "config:dm": 10, "hof:entries_checked": 150, "hof:updates_observed": 200, "generations:checked": 200, "aliasing:checks": 200, "config:seed_0": 3, "config:start_circuit_given": 8}
 
 
 def make_config(rng):
@@ -51,10 +52,24 @@ def make_config(rng):
             "backend": "DensityMatrixCompiler" if (rng.random() < 0.45 and not hybrid) else "StabilizerCompiler",
             "n_pop": int(rng.integers(3, 9)), "n_stop": int(rng.integers(3, 9)), "n_hof": int(rng.integers(1, 6)),
             "tournament_k": int(rng.integers(0, 4)), "selection": bool(rng.integers(2)), "adaptive": bool(rng.integers(2)),
+            "start_circuit": (not hybrid) and bool(rng.random() < 0.5),
             "det": int(rng.integers(2)), "seed": int(rng.integers(100000)) if rng.random() > 0.2 else int(rng.integers(0, 2))}   # seeds 0 and 1 are common user choices
 
 
-def build_solver(cfg):
+def _circ_sig(circ):
+    p = programs.program_from_circuit(circ)
+    return tuple(sorted((w, tuple(p.ops[i].text() for i in ids)) for w, ids in p.wires.items()))
+
+
+def start_circuit(cfg):
+    """the circuit a user hands over as the starting point: built by the solver's own constructor from a fixed assignment"""
+    helper = build_solver(dict(cfg, start_circuit=False))
+    n_p, n_e = len(cfg["adj"]), cfg["n_emitter"]
+    emission = [min(i, n_e - 1) for i in range(n_p)] if n_e > 1 else n_p * [0]
+    return helper.initialization(emission, [i % n_p for i in range(n_e)])
+
+
+def build_solver(cfg, circuit=None):
     from graphiq.solvers.evolutionary_solver import EvolutionarySolver, EvolutionarySolverSetting
     from graphiq.solvers.hybrid_solvers import HybridEvolutionarySolver
     from graphiq.metrics import Infidelity
@@ -69,8 +84,9 @@ def build_solver(cfg):
     if cfg["hybrid"]:
         s = HybridEvolutionarySolver(target=target, metric=Infidelity(target=target), compiler=comp, solver_setting=setting)
     else:
+        kw = {} if circuit is None else {"circuit": circuit}
         s = EvolutionarySolver(target=target, metric=Infidelity(target=target), compiler=comp, n_emitter=cfg["n_emitter"],
-                               n_photon=A.shape[0], solver_setting=setting)
+                               n_photon=A.shape[0], solver_setting=setting, **kw)
     return s
 
 
@@ -83,8 +99,10 @@ def summarize(solver):
     return {"hof": hof, "result": res}
 
 
-def solve_once(cfg):
-    s = build_solver(cfg)
+def solve_once(cfg, circuit=None):
+    if cfg.get("start_circuit") and circuit is None:
+        circuit = start_circuit(cfg)
+    s = build_solver(cfg, circuit)
     s.seed(cfg["seed"])
     s.solve()
     return s
@@ -223,11 +241,24 @@ def check_config(cfg, ctx, m, mon, probe):
         ctx.count("config:n_emitter>1")
     out = []
     solvers = []
+    start = None
+    if cfg.get("start_circuit"):
+        # the same circuit object is handed to both runs in this process (the child processes rebuild it)
+        ctx.count("config:start_circuit_given")
+        try:
+            start = start_circuit(cfg)
+            start_sig = _circ_sig(start)
+        except Exception as e:
+            ctx.case(("cfg", json.dumps(cfg, sort_keys=True), "start"), True)
+            ctx.violation("solve_raises", case, {"exception": f"{type(e).__name__}: {e}"[:300], "where": "building the start circuit"}, key=f"start_exc:{type(e).__name__}")
+            return None
     for rep in range(2):
         probe.records = []
         ctx.count("solves:in_process")
         try:
-            s = solve_once(cfg)
+            s = solve_once(cfg, start)
+            if start is not None and _circ_sig(start) != start_sig:
+                ctx.violation("solve_modifies_the_circuit_it_was_given", case, {"run": rep}, key="start_modified")
         except Exception as e:
             ctx.case(("cfg", json.dumps(cfg, sort_keys=True), rep), True)
             ctx.violation("solve_raises", case, {"exception": f"{type(e).__name__}: {e}"[:300]}, key=f"solve_exc:{type(e).__name__}")
